@@ -163,7 +163,8 @@ def build(ctx, res):
                         "contract": "try_match(..) == Some(m) ==> cell_fn(m.kind, values of m.inputs) ^ m.output_is_negated == value(root), m.inputs.len() == m.kind.arity()"})
     res.samples.append({"obligation": "kani:aigmap:try_library_rewrite_computes_cut_function_3_gates",
                         "contract": "try_library_rewrite(..) == Some(e) ==> value(e) == tt(value(new_edge[leaf_0]), .., padded with leaf_0) for every assignment; older nodes of new_aig untouched"})
-    return [KaniJob("aigmap", lib, hs, deps={}, items=items, trusted=TRUSTED, jobs=3, timeout=2400, per_harness_timeout=900)]
+    return [KaniJob("aigmap", lib, hs, deps={}, items=items, trusted=TRUSTED, jobs=3, timeout=2400, per_harness_timeout=900,
+                    extra=["--no-assertion-reach-checks"])]
 
 
 CLAUSES = {
